@@ -27,6 +27,19 @@ type Route struct {
 	Methods []string `json:"methods"`
 	// Remove: after all registrations, Remove(Pattern, Remove...) - a mix of registered and unregistered names
 	Remove []string `json:"remove,omitempty"`
+	// RemoveAt: the removal happens just before request number RemoveAt (0: before the first one)
+	RemoveAt int `json:"remove_at,omitempty"`
+}
+
+// Sibling is a second, stand-alone router of the same process. Its option lists are longer slices of the
+// very arrays the subject's lists were cut from (what a caller does who keeps one list of origins and
+// hands parts of it to several routers); it is created before or after the subject and is sent every
+// request just before the subject is. Nothing it does may show on the subject.
+type Sibling struct {
+	After        bool     `json:"after"`
+	ExtraOrigins []string `json:"extra_origins,omitempty"`
+	ExtraHeaders []string `json:"extra_headers,omitempty"`
+	ExtraExposed []string `json:"extra_exposed,omitempty"`
 }
 
 type Request struct {
@@ -47,6 +60,7 @@ type Case struct {
 	Cfg      Config    `json:"cfg"`
 	Routes   []Route   `json:"routes"`
 	Reqs     []Request `json:"reqs"`
+	Sibling  *Sibling  `json:"sibling,omitempty"`
 }
 
 var (
@@ -120,11 +134,41 @@ func Gen(t *rapid.T) Case {
 		rt := Route{Pattern: p, Methods: rapid.SampledFrom(methodSets).Draw(t, "rmethods")}
 		if rapid.IntRange(0, 3).Draw(t, "rremove") == 0 {
 			rt.Remove = rapid.SliceOfNDistinct(rapid.SampledFrom([]string{"GET", "POST", "DELETE", "PUT", "PATCH", "CONNECT"}), 1, 3, rapid.ID[string]).Draw(t, "rremoveMs")
+			if rapid.Bool().Draw(t, "rremoveLate") {
+				rt.RemoveAt = rapid.IntRange(1, 7).Draw(t, "rremoveAt") // between two requests (never, if there are fewer)
+			}
 		}
 		c.Routes = append(c.Routes, rt)
 	}
+	if rapid.IntRange(0, 3).Draw(t, "sibling") == 0 {
+		sb := &Sibling{After: rapid.Bool().Draw(t, "sibAfter")}
+		rest := func(pool, have []string) []string {
+			var out []string
+			for _, x := range pool {
+				if !contains(have, x) {
+					out = append(out, x)
+				}
+			}
+			return out
+		}
+		if o := rest(originPool[:3], c.Cfg.Origins); len(o) > 0 {
+			sb.ExtraOrigins = rapid.Permutation(o).Draw(t, "sibOrigins")[:rapid.IntRange(1, len(o)).Draw(t, "sibNOrigins")]
+		}
+		if !contains(c.Cfg.AllowHeaders, "*") {
+			if h := rest(headerPool[:9], c.Cfg.AllowHeaders); len(h) > 0 {
+				sb.ExtraHeaders = rapid.Permutation(h).Draw(t, "sibHeaders")[:rapid.IntRange(1, 3).Draw(t, "sibNHeaders")]
+			}
+		}
+		sb.ExtraExposed = []string{"A-First", "X-Sib"}[:rapid.IntRange(0, 2).Draw(t, "sibNExposed")]
+		c.Sibling = sb
+	}
 	str := func(s string) *string { return &s }
 	for i, n := 0, rapid.IntRange(1, 8).Draw(t, "nreqs"); i < n; i++ {
+		if i > 0 && rapid.IntRange(0, 4).Draw(t, "repeat") == 0 {
+			// the very same request once more (the table may have changed in between)
+			c.Reqs = append(c.Reqs, c.Reqs[rapid.IntRange(0, i-1).Draw(t, "repeatOf")])
+			continue
+		}
 		var q Request
 		var rt *Route
 		q.Method = rapid.SampledFrom([]string{"OPTIONS", "OPTIONS", "OPTIONS", "GET", "POST", "HEAD", "DELETE", "PUT", "PATCH", "BOGUS", ""}).Draw(t, "method")
@@ -218,35 +262,80 @@ type World struct {
 	R *rig.Router
 	H http.Handler // what requests are sent to (the router or its group)
 	M *ref.Table
+
+	c    Case
+	done map[int]bool // removals already applied
+	sib  http.Handler
 }
 
 func corsOpt(c Config) mux.Option {
 	return mux.WithCORS(append([]string{}, c.Origins...), append([]string{}, c.AllowHeaders...), append([]string{}, c.Exposed...), c.MaxAge, c.Cred)
 }
 
+// sharedOpts renders the subject's and the sibling's CORS options from common arrays: the subject's
+// lists are the front parts (with spare capacity behind them), the sibling's the whole arrays.
+func sharedOpts(c Config, sb *Sibling) (subject, sibling mux.Option) {
+	cut := func(own, extra []string) ([]string, []string) {
+		all := append(append(make([]string, 0, len(own)+len(extra)+2), own...), extra...)
+		return all[:len(own)], all
+	}
+	o1, o2 := cut(c.Origins, sb.ExtraOrigins)
+	h1, h2 := cut(c.AllowHeaders, sb.ExtraHeaders)
+	e1, e2 := cut(c.Exposed, sb.ExtraExposed)
+	if len(o2) == 0 {
+		o2 = []string{"https://sibling.example"}
+	}
+	// the sibling never combines '*' with credentials (a rejected configuration)
+	return mux.WithCORS(o1, h1, e1, c.MaxAge, c.Cred), mux.WithCORS(o2, h2, e2, c.MaxAge+1, c.Cred && !contains(o2, "*"))
+}
+
 func Build(c Case) *World {
 	env := rig.NewEnv()
 	var r *rig.Router
 	var front http.Handler
+	subjectOpt := corsOpt(c.Cfg)
+	var sib http.Handler
+	mkSib := func() {}
+	if c.Sibling != nil {
+		var sibOpt mux.Option
+		subjectOpt, sibOpt = sharedOpts(c.Cfg, c.Sibling)
+		mkSib = func() {
+			sr := rig.NewEnv().NewRouter("sibling", rig.Opts{Trace: c.Cfg.Trace, Extra: []mux.Option{sibOpt}})
+			for _, rt := range c.Routes {
+				sr.Handle(rt.Pattern, sr.Env.NewH(), nil, rt.Methods...) // never removed from
+			}
+			sib = sr
+		}
+		if !c.Sibling.After {
+			mkSib()
+		}
+	}
 	switch c.Subject {
 	case "gnew-override", "gnew-inherit":
 		gcfg := c.Cfg
 		if c.GroupCfg != nil {
 			gcfg = *c.GroupCfg
 		}
-		g := env.NewGroup(corsOpt(gcfg))
+		gopt := corsOpt(gcfg)
+		if c.GroupCfg == nil {
+			gopt = subjectOpt // inherited: the group's option is the subject's
+		}
+		g := env.NewGroup(gopt)
 		var own []mux.Option
 		if c.Cfg.Trace {
 			own, _ = env.Options(rig.Opts{Trace: true})
 		}
 		if c.Subject == "gnew-override" {
-			own = append(own, corsOpt(c.Cfg))
+			own = append(own, subjectOpt)
 		}
 		r = &rig.Router{Router: g.New("r", nil, own...), Env: env, NotFound: g.NotFound}
 		front = g
 	default:
-		r = env.NewRouter("r", rig.Opts{Trace: c.Cfg.Trace, Extra: []mux.Option{corsOpt(c.Cfg)}})
+		r = env.NewRouter("r", rig.Opts{Trace: c.Cfg.Trace, Extra: []mux.Option{subjectOpt}})
 		front = r
+	}
+	if c.Sibling != nil && c.Sibling.After {
+		mkSib()
 	}
 	m := ref.NewTable(c.Cfg.Trace)
 	for _, rt := range c.Routes {
@@ -254,16 +343,30 @@ func Build(c Case) *World {
 		r.Handle(rt.Pattern, h, nil, rt.Methods...)
 		m.Handle(rt.Pattern, h.ID, rt.Methods)
 	}
-	for _, rt := range c.Routes {
-		if len(rt.Remove) > 0 {
-			r.Remove(rt.Pattern, rt.Remove...)
-			m.Remove(rt.Pattern, rt.Remove...)
+	w := &World{R: r, H: front, M: m, c: c, done: map[int]bool{}, sib: sib}
+	w.Advance(0)
+	return w
+}
+
+// Advance applies the removals scheduled before request number i; the checks call it before every request.
+func (w *World) Advance(i int) {
+	for k, rt := range w.c.Routes {
+		if len(rt.Remove) > 0 && rt.RemoveAt <= i && !w.done[k] {
+			w.done[k] = true
+			w.R.Remove(rt.Pattern, rt.Remove...)
+			w.M.Remove(rt.Pattern, rt.Remove...)
 		}
 	}
-	return &World{R: r, H: front, M: m}
 }
 
 func (w *World) Serve(q Request) *rig.Outcome {
+	if w.sib != nil {
+		w.serve(w.sib, q)
+	}
+	return w.serve(w.H, q)
+}
+
+func (w *World) serve(h http.Handler, q Request) *rig.Outcome {
 	hdr := map[string][]string{}
 	if q.Origin != nil {
 		hdr["Origin"] = []string{*q.Origin}
@@ -274,7 +377,7 @@ func (w *World) Serve(q Request) *rig.Outcome {
 	if q.ACRH != nil {
 		hdr["Access-Control-Request-Headers"] = []string{*q.ACRH}
 	}
-	return rig.Serve(w.H, rig.Req{Method: q.Method, Path: q.Path, Header: hdr})
+	return rig.Serve(h, rig.Req{Method: q.Method, Path: q.Path, Header: hdr})
 }
 
 // Facts the reference derives about one request.
